@@ -6,6 +6,7 @@ import pandas as pd
 
 import common as C
 import verde as vd
+from props import large as L
 
 ID = "C04"
 TRANSLATED = "fit"          # the mathematics the invariances rest on is stated about the regenerated least_squares / Trend.fit / Trend.predict (Props/C04.lean: src_*); layout and dtype are observed on the real gridders
@@ -149,6 +150,11 @@ def rand_case(rng, kind=None, amp=None):
 
 
 def corpus():
+    return _corpus() + [L.case("cv_layout", [24, 1, 4], "corpus-cv-2d-arrays"),
+                       L.case("cv_layout", [30, 2, 3], "corpus-cv-2d-arrays")]
+
+
+def _corpus():
     import random
     rng = random.Random(4)
     cs = [rand_case(rng, k, 1.0) for k in ["trend", "spline", "vector", "knn-mean", "knn-median", "linear", "cubic",
@@ -224,6 +230,9 @@ def _ro(x):
 
 
 def impl(case):
+    if case["fn"] == "large":
+        r = C.call(L.run, case["args"])
+        return r if C.is_err(r) else ["large", r]
     kind, params, es, ns, d1, d2, w, perm, a, b, qe, qn, seed = case["args"]
 
     def run():
@@ -367,6 +376,8 @@ def _tol(case):
 
 
 def compare(case, io, mo):
+    if case["fn"] == "large":
+        return "diff:implementation failed: " + io[1] if C.is_err(io) else "ok"
     if case["args"][0] != "trend":
         return "ok"
     if C.is_err(io):
@@ -388,6 +399,8 @@ def compare(case, io, mo):
 
 
 def oracle(case, io):
+    if case["fn"] == "large":
+        return (io[1] or None) if not C.is_err(io) else "failed on a large input: " + io[1]
     if C.is_err(io):
         return "a layout/dtype variant failed or returned the wrong shape: " + io[1]
     res = io[1]
@@ -420,6 +433,8 @@ def oracle(case, io):
 
 
 def nontrivial(case, io):
+    if case["fn"] == "large":
+        return not C.is_err(io)
     return (not C.is_err(io)) and len(case["args"][2]) >= 4
 
 
